@@ -302,6 +302,7 @@ def run(ctx):
   _r3(ctx)
   shared.rule_performer_translation(ctx, 'C19.R9')
   shared.rule_performer_simulation(ctx, 'C19.R10')
+  shared.rule_graph_rewrite_simulation(ctx, 'C19.R11', 'graph rewriting with two subgraphs and an interleaved plan: each subgraph is rewritten as if it stood alone')
 
 
 def _relabel(ctx, old, new, title, fn):
